@@ -1,5 +1,9 @@
 #include <fault/util.hpp>
 
+#ifdef YACLIB_VERIF
+#  include <yaclib/fault/verif_hook.hpp>
+#endif
+
 namespace yaclib::detail {
 
 static std::uint32_t sSeed = 1239;
@@ -20,6 +24,11 @@ std::uint32_t GetSeed() {
 }
 
 std::uint64_t GetRandNumber(std::uint64_t max) {
+#ifdef YACLIB_VERIF
+  if (auto* hook = verif::GetHook(); hook != nullptr && hook->choose) {
+    return hook->Rand(max);
+  }
+#endif
 #if YACLIB_FAULT == 2
   sRandCount++;
 #endif
@@ -43,3 +52,19 @@ void ForwardToRandCount([[maybe_unused]] std::uint64_t random_count) {
 }
 
 }  // namespace yaclib::detail
+
+#ifdef YACLIB_VERIF
+namespace yaclib::verif {
+
+static Hook* sHook = nullptr;
+
+Hook* GetHook() noexcept {
+  return sHook;
+}
+
+void SetHook(Hook* hook) noexcept {
+  sHook = hook;
+}
+
+}  // namespace yaclib::verif
+#endif
